@@ -169,5 +169,11 @@ class SpooledTextFile(_io.TextIOBase):
         file = self._file
         self._path = self._get_unused_path()
         newfile = self._file = self._path.open(mode='x+')
-        newfile.write(file.getvalue())
-        newfile.seek(file.tell(), 0)
+        # The position of the memory buffer counts characters,
+        # and is not a valid position of the text file on disk.
+        mem_buff_contents = file.getvalue()
+        mem_buff_position = file.tell()
+        newfile.write(mem_buff_contents[:mem_buff_position])
+        position = newfile.tell()
+        newfile.write(mem_buff_contents[mem_buff_position:])
+        newfile.seek(position, 0)
